@@ -90,6 +90,7 @@ macro_rules! field_case {
         ];
         for (name, got) in forms.iter() {
             let g = $to_big(got);
+            ensure!(<$T>::from_slice(&got.to_slice()) == Some(*got), "add|second-representation", "{} {}: result is not in canonical form (from_slice(to_slice(v)) != v) for a={:x} b={:x}", m.name(), name, a, b);
             ensure!(g == want, "add|value", "{} {}: a={:x} b={:x} got {:x} want {:x}", m.name(), name, a, b, g, want);
         }
         // ---- subtraction
@@ -104,6 +105,7 @@ macro_rules! field_case {
         ];
         for (name, got) in forms.iter() {
             let g = $to_big(got);
+            ensure!(<$T>::from_slice(&got.to_slice()) == Some(*got), "sub|second-representation", "{} {}: result is not in canonical form (from_slice(to_slice(v)) != v) for a={:x} b={:x}", m.name(), name, a, b);
             ensure!(g == want, "sub|value", "{} {}: a={:x} b={:x} got {:x} want {:x}", m.name(), name, a, b, g, want);
         }
         // ---- multiplication
@@ -118,12 +120,14 @@ macro_rules! field_case {
         ];
         for (name, got) in forms.iter() {
             let g = $to_big(got);
+            ensure!(<$T>::from_slice(&got.to_slice()) == Some(*got), "mul|second-representation", "{} {}: result is not in canonical form (from_slice(to_slice(v)) != v) for a={:x} b={:x}", m.name(), name, a, b);
             ensure!(g == want, "mul|value", "{} {}: a={:x} b={:x} got {:x} want {:x}", m.name(), name, a, b, g, want);
         }
         // ---- negation
         let want = zp::neg_mod(&a, p);
         for (name, got) in [("-a", -la), ("-&a", -&la)].iter() {
             let g = $to_big(got);
+            ensure!(<$T>::from_slice(&got.to_slice()) == Some(*got), "neg|second-representation", "{} {}: result is not in canonical form (from_slice(to_slice(v)) != v) for a={:x} b={:x}", m.name(), name, a, b);
             ensure!(g == want, "neg|value", "{} {}: a={:x} got {:x} want {:x}", m.name(), name, a, g, want);
         }
         // ---- inverse
